@@ -1568,7 +1568,114 @@ DECK_CORPUS_TWINS = [
     '1 -2 : 4 3', '-10 3 : -10 -3', '(-10 : 3) (-10 : -3)', '10 : -20.1',
     '10 -20.1 4',
 ]
+# a third corpus deck: unions whose operands mix a bare surface, an intersection
+# that contains a union and a pure intersection, in several orders, direct and
+# through complements; complements of moved (TRCL) cells of importance 0 and 1
+DECK_CORPUS_MIXED = [
+    ('1 : (2 (3:4)) : (-10 -20.1)', None, 1),
+    ('(2 (3:4)) : (-10 -20.1) : 1', None, 1),
+    ('(-10 -20.1) : 1 : (2 (3:4))', None, 1),
+    ('-10 (1 : (2 (3:-4)) : (3 4))', None, 1),
+    ('-1 (-2:(-3 -4)) (10:20.1)', None, 1),
+    ('#5', None, 1),
+    ('#( -1 (-2:(-3 4)) (-3:-4) ) -10', None, 1),
+    ('-20', (2.0, 0.0, 0.0), 0),
+    ('#8 -10', None, 1),
+    ('-1 3', (-1.5, 0.75, 0.0), 1),
+    ('#10 #8 -10', None, 1),
+    ('3 : 4 -1', (0.0, 2.0, -1.5), 0),
+    ('#12 : 1 -3', None, 1),
+]
 DECK_LITS = [1, 2, 3, 4, 10, 20]
+
+
+def deck_lit(rng, exclude=()):
+    sid = rng.choice([x for x in DECK_LITS if x not in exclude])
+    sub = rng.randint(1, 6) if sid == 20 and rng.random() < 0.4 else None
+    return ('s', sid * rng.choice([1, -1]), sub)
+
+
+def fold_op(op, items):
+    node = items[0]
+    for item in items[1:]:
+        node = (op, node, item)
+    return node
+
+
+def dual(e):
+    '''the expression of the complement, by De Morgan (literals negated)'''
+    tag = e[0]
+    if tag == 's':
+        return ('s', -e[1], e[2])
+    if tag in ('*', ':'):
+        return (':' if tag == '*' else '*', dual(e[1]), dual(e[2]))
+    if tag == 'p':
+        return ('p', dual(e[1]))
+    raise ValueError(e)
+
+
+def mixed_union(rng):
+    '''a union of 3-4 operands holding at least a bare surface, a pure
+    intersection and an intersection that contains a union, in random order'''
+    def pure():
+        return fold_op('*', [deck_lit(rng) for _ in range(rng.choice((2, 2, 3)))])
+
+    def impure():
+        inner = fold_op(':', [deck_lit(rng),
+                              rng.choice([deck_lit(rng), pure()])])
+        parts = [deck_lit(rng), inner]
+        if rng.random() < 0.4:
+            parts.append(fold_op(':', [deck_lit(rng), deck_lit(rng)]))
+        rng.shuffle(parts)
+        return fold_op('*', parts)
+    ops = [deck_lit(rng), pure(), impure()]
+    if rng.random() < 0.5:
+        ops.append(rng.choice([deck_lit, pure, impure])() if False else
+                   rng.choice([deck_lit(rng), pure(), impure()]))
+    rng.shuffle(ops)
+    return fold_op(':', ops)
+
+
+def plant_mixed(rng, exprs):
+    '''a mixed union as a cell of its own, beside a generated expression, or
+    produced by De Morgan from #( dual ) or from #n of a cell holding the dual'''
+    ids = list(exprs)
+    cid = rng.choice(ids)
+    union = mixed_union(rng)
+    style = rng.random()
+    if style < 0.3:
+        exprs[cid] = union
+    elif style < 0.55:
+        exprs[cid] = ('*', union, deck_lit(rng))
+    elif style < 0.8:
+        exprs[cid] = ('*', ('#', dual(union)), deck_lit(rng))
+    else:
+        first = ids[0]
+        if first != cid:
+            exprs[first] = dual(union)
+            exprs[cid] = ('*', ('#c', first), deck_lit(rng))
+        else:
+            exprs[cid] = union
+    return exprs
+
+
+def plant_moved(rng, exprs):
+    '''TRCL translations on one or two cells, importance 0 or 1, and a later
+    cell that complements each moved cell. Returns {cell: (trcl, imp)}'''
+    ids = list(exprs)
+    opts = {}
+    for _ in range(rng.choice((1, 2))):
+        if len(ids) < 2:
+            break
+        k = rng.randrange(len(ids) - 1)
+        moved, later = ids[k], rng.choice(ids[k + 1:])
+        shift = tuple(rng.choice([0.0, 2.0, -1.5, 0.75]) for _ in range(3))
+        if shift == (0.0, 0.0, 0.0):
+            shift = (2.0, 0.0, 0.0)
+        opts[moved] = (shift, rng.choice([0, 0, 1]))
+        exprs[later] = (rng.choice('*:'), ('#c', moved), exprs[later]) \
+            if not has_cell_under_not(exprs[later]) else ('#c', moved)
+    return opts
 
 
 def plant_twins(rng, exprs):
@@ -1645,13 +1752,18 @@ def deck_points(rng, n):
     return pts
 
 
-def convert_deck(cell_texts):
-    '''(ConvResult, T4File or None) for a one-universe deck of void cells'''
+def convert_deck(cell_texts, opts=None):
+    '''(ConvResult, T4File or None) for a one-universe deck of void cells;
+    opts: {cell: (TRCL translation or None, importance)}'''
     import deck as deckmod
     import impl
+    opts = opts or {}
     lines = ['C11 generated deck']
     for cid, text in cell_texts.items():
-        lines.append(deckmod.wrap(f'{cid} 0 {text.strip()} imp:n=1'))
+        shift, imp = opts.get(cid, (None, 1))
+        trcl = '' if shift is None else \
+            ' trcl=(' + ' '.join(deckmod.num(v) for v in shift) + ')'
+        lines.append(deckmod.wrap(f'{cid} 0 {text.strip()}{trcl} imp:n={imp}'))
     lines.append('')
     lines.extend(deckmod.surface_text(surf) for surf in DECK_SURFACES)
     lines.append('')
@@ -1660,7 +1772,7 @@ def convert_deck(cell_texts):
     return conv, t4, '\n'.join(lines) + '\n'
 
 
-def check_deck(res, cell_texts, points, origin):
+def check_deck(res, cell_texts, points, origin, opts=None):
     '''convert, then membership of every point in the written volume of every
     cell against the independent reading of the card (c11_refparse + mcnpref);
     a cell that owns a sample point must be written. Returns n failures.'''
@@ -1669,7 +1781,8 @@ def check_deck(res, cell_texts, points, origin):
     if any(e is None for e in exprs.values()):
         raise ValueError(f'generator wrote a text the reader rejects: '
                          f'{cell_texts}')
-    conv, t4, text = convert_deck(cell_texts)
+    opts = opts or {}
+    conv, t4, text = convert_deck(cell_texts, opts)
     res.seen(text)
     if t4 is None:
         res.count(f'{origin}:conversion-failed')
@@ -1678,13 +1791,23 @@ def check_deck(res, cell_texts, points, origin):
                       f'convert: {conv.exc}: {conv.msg[:160]}',
                       {'input': {'deck': text}}, found_input=True)
         return 1
-    ref = mcnpref.Reference({'cells': [{'id': cid, 'expr': to_ref(e)}
+    import deck as deckmod
+    ref = mcnpref.Reference({'cells': [{'id': cid, 'expr': to_ref(e),
+                                        'trcl': (deckmod.make_tr(opts[cid][0])
+                                                 if cid in opts and
+                                                 opts[cid][0] is not None
+                                                 else None)}
                                        for cid, e in exprs.items()],
                              'surfaces': DECK_SURFACES, 'transforms': {}},
                             eps=1e-6)
     ev = t4eval.Evaluator(t4, eps=1e-6)
     n_fail = 0
     for cid in cell_texts:
+        if opts.get(cid, (None, 1))[1] == 0:
+            # importance 0: the cell is not converted (it still counts for
+            # the #n of the others)
+            res.count(f'{origin}:cell-importance-0')
+            continue
         nonempty = False
         for p in points:
             try:
@@ -1732,6 +1855,11 @@ def run_decks(res, rng, n_decks):
                  enumerate(DECK_CORPUS_TWINS[::order])}
         n_fail += check_deck(res, twins, points, 'deck-corpus-twins')
         n_cells += len(twins)
+    mixed = {i + 1: t for i, (t, _, _) in enumerate(DECK_CORPUS_MIXED)}
+    mopts = {i + 1: (sh, imp) for i, (_, sh, imp) in
+             enumerate(DECK_CORPUS_MIXED) if sh is not None or imp != 1}
+    n_fail += check_deck(res, mixed, points, 'deck-corpus-mixed', mopts)
+    n_cells += len(mixed)
     for d in range(n_decks):
         exprs = {}
         ids = []
@@ -1745,9 +1873,16 @@ def run_decks(res, rng, n_decks):
                 e = ('s', 1, None)
             exprs[cid] = e
             ids.append(cid)
+        opts = {}
         if d % 2 == 0:
             exprs = plant_twins(rng, exprs)
             res.count('deck:with-operator-twins')
+        if d % 3 != 1:
+            exprs = plant_mixed(rng, exprs)
+            res.count('deck:with-mixed-union')
+        if d % 4 == 1 or d % 4 == 2:
+            opts = plant_moved(rng, exprs)
+            res.count('deck:with-moved-cells')
         texts = {}
         for cid, e in exprs.items():
             text = render(e, random_layout(rng))
@@ -1761,8 +1896,8 @@ def run_decks(res, rng, n_decks):
         # "max() iterable argument is empty"; not a geometry, outside C11)
         texts[len(texts) + 1] = '10'
         n_cells += len(texts)
-        n_fail += check_deck(res, texts, points, 'deck')
-    res.obligation(f'sweep:decks ({n_decks + 3} whole decks, {n_cells} cells '
+        n_fail += check_deck(res, texts, points, 'deck', opts)
+    res.obligation(f'sweep:decks ({n_decks + 4} whole decks, {n_cells} cells '
                    'converted with impl.convert; membership of 60 points in '
                    'every written volume = the independent reading of the '
                    'card; every cell owning a point is written)',
